@@ -47,6 +47,8 @@ NONBRIDGE = {
     "same_named_impl": "pub struct Beta(pub u8);\nimpl Beta { pub fn sum(self) -> u16 { 7 } pub fn other(&self) {} }\n",
     "plain_module": "mod plain {\n    pub struct Zeta(pub u8);\n    impl Zeta { pub fn z(&self) -> u8 { self.0 } }\n    pub enum Gamma { Nine }\n}\n",
     "constant": "#[allow(dead_code)]\nconst K: u8 = 1;\n",
+    "foreign_attr": "#[appcfg::config(lib_name = \"settings\", js.abi = \"spec\", kotlin.domain = \"org.example\", demo_gen.module_name = \"m\")]\n"
+                    "pub struct Settings { pub v: u8 }\n#[other::config(lib_name = \"x\")]\nimpl Settings { pub fn get(&self) -> u8 { self.v } }\n",
 }
 BASE = [["ma", [("type", "Alpha", 0), ("impl", "Alpha", 1), ("type", "Beta", 0), ("impl", "Beta", 1), ("impl", "Alpha", 2)]],
         ["mb", [("type", "Gamma", 0), ("impl", "Gamma", 1)]]]
